@@ -249,6 +249,14 @@ func (e *Engine) registerThreads() {
 		l.writer = -1
 		return nil
 	}
+	// zzverif.Yield in a harness: a scheduling point with no synchronisation (a caller that does something else
+	// between two steps).  Natively it is the baton's yield, so recorded schedules replay unchanged.
+	in[rtPkg+".Yield"] = func(r *Run, fr *Frame, cc *ssa.CallCommon, a []Value) Value {
+		if r.sch != nil && r.sch.cur != nil {
+			r.syncPoint(func() bool { return true })
+		}
+		return nil
+	}
 	in["(*sync.RWMutex).RLock"] = func(r *Run, fr *Frame, cc *ssa.CallCommon, a []Value) Value {
 		l := r.lockOf(a[0].(*PtrV))
 		r.syncPoint(func() bool { return l.writer == -1 })
